@@ -204,6 +204,7 @@ pub fn run_program_cases(
     audited: &HashSet<String>,
     inputs_per_fn: usize,
     libfuncs_seen: &mut HashSet<String>,
+    sweep: bool,
 ) {
     let libs = program_libfuncs(&program);
     let non_audited: Vec<&String> = libs.iter().filter(|l| !audited.contains(*l)).collect();
@@ -235,8 +236,21 @@ pub fn run_program_cases(
             continue;
         }
         let mut rng = Rng::derive(seed, &[fnv_str(case_name), fnv_str(&fname), fnv_str(&cfg.name())]);
-        for k in 0..inputs_per_fn {
-            let Some((args, adesc)) = values::gen_args(&prog.builder, func, &mut rng) else {
+        // Boundary sweep: every boundary value of each of the first three scalar leaves, the
+        // other leaves as usual.
+        let mut forced: Vec<(usize, num_bigint::BigInt)> = vec![];
+        if sweep {
+            for (pos, (lo, hi)) in values::scalar_leaf_ranges(&prog.builder, func).iter().enumerate().take(3) {
+                forced.extend(values::boundary_candidates(lo, hi).into_iter().map(|c| (pos, c)));
+            }
+            acc.count("boundary_sweep_inputs", forced.len() as u64);
+        }
+        for k in 0..inputs_per_fn + forced.len() {
+            let generated = match k.checked_sub(inputs_per_fn) {
+                None => values::gen_args(&prog.builder, func, &mut rng),
+                Some(j) => values::gen_args_forced(&prog.builder, func, &mut rng, forced[j].0, &forced[j].1),
+            };
+            let Some((args, adesc)) = generated else {
                 acc.count("functions_with_unsupported_params", 1);
                 break;
             };
@@ -244,7 +258,7 @@ pub fn run_program_cases(
             let gas = budgets[k % budgets.len()];
             let case_id = format!("{case_name} {fname}({adesc}) gas={gas:?} cfg={}", cfg.name());
             let replay = json!({"kind": "snippet", "name": case_name, "code": code, "cfg": cfg,
-                "function": fname, "args": adesc, "gas": gas, "seed": seed, "k": k});
+                "function": fname, "args": adesc, "gas": gas, "seed": seed, "k": k, "inputs_per_fn": inputs_per_fn});
             acc.eval();
             let rec = match guarded(|| exec::run(&prog, func, args, gas)) {
                 Ok(r) => r,
@@ -284,6 +298,11 @@ pub fn run_program_cases(
     acc.count("const_segment_ret_hits", ap.const_ret_hits);
 }
 
+/// Cases whose scalar inputs are swept over the boundary set (the W5 programs).
+pub fn is_sweep_case(name: &str) -> bool {
+    name.starts_with("cover::") || name.starts_with("rangecast::")
+}
+
 fn case_crate(_case_name: &str) -> &'static str {
     "test"
 }
@@ -291,6 +310,9 @@ fn case_crate(_case_name: &str) -> &'static str {
 /// Snippet workload W3: every e2e `cairo_code` plus examples/ and bug samples that compile alone.
 pub fn snippet_cases() -> Vec<(String, String)> {
     let mut out = vec![];
+    // W5: small programs written for hint / boundary coverage; their scalar inputs are swept.
+    out.extend(crate::hintfault::HINT_COVERAGE_PROGRAMS.iter().map(|(n, c)| (n.to_string(), c.to_string())));
+    out.extend(crate::hintfault::range_cast_programs().into_iter().map(|(n, c, _)| (n, c)));
     for tc in crate::corpus::e2e_cases() {
         if let Some(code) = tc.sections.get("cairo_code") {
             out.push((format!("{}::{}", crate::corpus::rel(&tc.file), tc.name), code.clone()));
@@ -346,7 +368,7 @@ pub fn exec_worker(ctx: &mut Ctx, prop: &str) {
                     acc.count("snippets_compiled", 1);
                     let _ = i;
                     run_program_cases(
-                        &mut acc, prop, seed, name, code, cfg, program, &audited, inputs_per_fn, &mut libs,
+                        &mut acc, prop, seed, name, code, cfg, program, &audited, inputs_per_fn, &mut libs, is_sweep_case(name),
                     );
                 }
                 Err(e) => {
@@ -540,7 +562,8 @@ pub fn exec_replay(prop: &str, case: &serde_json::Value) -> Result<Option<String
             let starknet = name.contains("libfuncs/starknet") || code.contains("starknet::");
             let program = compile_cached(&cfg, starknet, "test", code)?;
             let mut libs = HashSet::new();
-            run_program_cases(&mut acc, prop, seed, name, code, &cfg, program, &audited, 40, &mut libs);
+            let inputs = case["inputs_per_fn"].as_u64().unwrap_or(40) as usize;
+            run_program_cases(&mut acc, prop, seed, name, code, &cfg, program, &audited, inputs, &mut libs, is_sweep_case(name));
         }
         "corelib_test" => {
             let name = case["name"].as_str().ok_or("no name")?;
